@@ -2,7 +2,7 @@
 import os, sys, json, time, hashlib, re
 
 VERIF = os.path.dirname(os.path.dirname(os.path.abspath(__file__)))
-KNOWN_FILE = os.path.join(VERIF, 'known_findings.json')
+KNOWN_FILE = os.environ.get('VERIF_KNOWN_FILE') or os.path.join(VERIF, 'known_findings.json')      # the override is for developer triage only (never set by registered commands)
 
 def stable_hash(obj):
     return hashlib.sha256(json.dumps(obj, sort_keys=True, default=str).encode()).hexdigest()[:16]
